@@ -471,6 +471,15 @@ theorem v1_long_prefix_witness :
     validPrefix p60 = true ∧ (v1Name p60 (constSfx "-AAAAAQ") (xs 100)).length = 102 := by
   decide
 
+set_option maxRecDepth 8192 in
+/-- **F6f** the same negative cut breaks isolation: with a 63-character prefix the v1 name of the
+    64-character id `a/xx…` is the v2 name of the distinct id `a.xx…` (its safe form). -/
+theorem v1_negative_cut_witness :
+    validPrefix (List.replicate 63 'a') = true ∧ "a/".toList ++ xs 62 ≠ safeKey ("a/".toList ++ xs 62) ∧
+    v1Key (List.replicate 63 'a') (constSfx "-AAAAAQ") ("a/".toList ++ xs 62)
+      = v2Key (List.replicate 63 'a') (constSfx "-AAAAAQ") (safeKey ("a/".toList ++ xs 62)) := by
+  decide
+
 /-- **F6b** `sfx k ≠ sfx k'` in `distinct` is necessary: whenever the suffixes of two long ids
     collide and the ids agree on the characters kept, the v2 names coincide … -/
 theorem collision_witness (p : Str) (sfx : Str → Str) (k k' : Str) (hk : k.length > 63) (hk' : k'.length > 63)
